@@ -376,9 +376,12 @@ impl<'source> Iterator for Lexer<'source> {
                     self.comment_depth += 1;
                     continue;
                 }
-                | Some((Ok(Tok::CommentClose), _)) => {
+                | Some((Ok(Tok::CommentClose), range)) => {
                     if self.comment_depth == 0 {
-                        break None;
+                        // A stray terminator is a token outside comments: hand it to the
+                        // parser, which has no terminal for it and reports a syntax error,
+                        // instead of ending the stream and silently dropping the rest.
+                        break Some((range.start, Tok::CommentClose, range.end));
                     }
                     self.comment_depth -= 1;
                 }
